@@ -191,7 +191,9 @@ def run(ctx):
     # samples (absolute receiver coordinates), and, for computational grids
     # other than the model grid, brings the result back with the transposed
     # volume average, component by component
-    from .c07 import adjoint_sources
+    from .c07 import adjoint_sources, gradient_callsite
+    kf = ctx.repo.mod('emg3d/maps.py').func('interp_edges_to_vol_averages')
+    gradient_callsite(ctx, au.params(kf), R='C08.V4.scatter')
     from .c15 import rule_VA5
 
     class Map:
